@@ -144,7 +144,7 @@ def norm_abs(a):
     return a
 
 
-def build_doc(k1, k2, form, req, dflt, swapped, pname="p", collide=None):
+def build_doc(k1, k2, form, req, dflt, swapped, pname="p", collide=None, sib=None):
     comps = {}
     members = []
     for i, k in enumerate((k1, k2)):
@@ -172,6 +172,11 @@ def build_doc(k1, k2, form, req, dflt, swapped, pname="p", collide=None):
             comps[f"Member{i}"] = members[i]
             allof.append({"$ref": f"#/components/schemas/Member{i}"})
     comps["M"] = {"allOf": allof}
+    if sib and "$ref" in allof[0]:
+        # a second, independent composition of the same referenced member, declared before / after M: what M's other member
+        # says about the shared property is none of its business
+        s2 = {"allOf": [copy.deepcopy(allof[0]), {"type": "object", "properties": {"sibonly": {"type": "integer"}}}]}
+        comps = {"Sib": s2, **comps} if sib == "before" else {**comps, "Sib": s2}
     return gen.base_doc(comps)
 
 
@@ -329,8 +334,43 @@ def _pair(p):
     if len(oks) == 2 and "p" in oks[0][1] and "p" in oks[1][1] and oks[0][1]["p"] != oks[1][1]["p"]:
         viol.append({"oracle": "order-dependent", "site": p["form"], "key": f"{pairkey}/attribute",
                      "detail": f"attribute p is {oks[0][1]['p']!r} in one member order and {oks[1][1]['p']!r} in the other"})
-    # instances valid against all members round-trip
+    # a sibling composition of the same referenced member (declared before and after M) is the conjunction of ITS members:
+    # its shared property has the kind, requiredness and default the referenced member declares, whatever M's other member says
+    # (a merge that narrows / marks / defaults the parent's property object in place shows up here, not in M)
     steps = 2
+    if p["form"] != "inline+inline" and not collide and not viol:
+        for swapped, o in zip((False, True), obs):
+            if o[0] != "ok":
+                continue
+            i_ref = 1 if swapped else 0
+            k_ref = (k1, k2)[i_ref]
+            for where in ("before", "after"):
+                ds = build_doc(k1, k2, p["form"], p["req"], p["default"], swapped, pname, None, sib=where)
+                so = _observe(ds, "Sib")
+                steps += 1
+                skey = f"{pairkey}/sibling-{where}"
+                if so[0] != "ok":
+                    viol.append({"oracle": "sibling-composition", "site": p["form"], "key": skey,
+                                 "detail": f"Sib = allOf[Member{i_ref}, {{sibonly}}] next to M = allOf[{kname(k1)}, {kname(k2)}]{' (swapped)' if swapped else ''}: {so[0]}: {str(so[1])[:200]}"})
+                    continue
+                sattrs = so[1]
+                shared = [n for n in sattrs if n not in ("only0", "only1", "sibonly")]
+                if len(shared) != 1:
+                    viol.append({"oracle": "sibling-composition", "site": p["form"], "key": skey + "/attributes", "detail": f"Sib has attributes {sorted(sattrs)}"})
+                    continue
+                got, required, dj = sattrs[shared[0]]
+                want_s = norm_abs(abstract_of_kind(k_ref))
+                has_default = p["default"] == ("first", "second")[i_ref]
+                if got != want_s:
+                    viol.append({"oracle": "sibling-composition", "site": p["form"], "key": skey + "/type",
+                                 "detail": f"Member{i_ref} declares {kname(k_ref)}; its other composition Sib has {got!r} because M = allOf[...] merges it with {kname((k1, k2)[1 - i_ref])}"})
+                if not has_default and (required is True) != bool(p["req"][i_ref]):
+                    viol.append({"oracle": "sibling-composition", "site": p["form"], "key": skey + "/required",
+                                 "detail": f"Member{i_ref} {'requires' if p['req'][i_ref] else 'does not require'} p; in its other composition Sib required={required!r} (M's other member: required={p['req'][1 - i_ref]})"})
+                if not has_default and dj not in ("<none>", "<unset>"):
+                    viol.append({"oracle": "sibling-composition", "site": p["form"], "key": skey + "/default",
+                                 "detail": f"Member{i_ref} declares no default for p; its other composition Sib has default {dj}"})
+    # instances valid against all members round-trip
     if want is not None and oks and not viol:
         narrow_k = k1 if norm_abs(a1) == norm_abs(want) else k2
         inst = {pname: sample(narrow_k), "only0": 1, "only1": 2}
